@@ -39,6 +39,24 @@ NAMES = {
              "member_ro": ["size", "dtype"], "member_rw": ["values", "name", "attrs"], "method": ["sort", "copy"]},
 }
 XL = [30, 10, 20]
+# names that are class members of only some of the three classes: plain metadata on the others
+CROSS = ["tol", "max", "update", "keys", "labels"]
+for _cls, _typ in (("DimArray", DimArray), ("Dataset", Dataset), ("Axis", Axis)):
+    for _nm in CROSS:
+        NAMES[_cls]["method" if hasattr(_typ, _nm) else "public"].append(_nm)
+
+
+def _prime(cls):
+    """touch every name of this class' alphabet on fresh objects of the OTHER two classes first (set, get, delete; failures ignored):
+    what the library learns about a name on one class must not decide how another class routes it"""
+    for other in sorted(NAMES):
+        if other == cls:
+            continue
+        o = make(other)
+        for name in all_names(cls):
+            call(setattr, o, name, "P:" + name)
+            call(getattr, o, name)
+            call(delattr, o, name)
 
 
 def bounds(tier):
@@ -229,7 +247,7 @@ class Space(object):
         self.cls = cls
 
     def initial(self, tier):
-        return [[["new", self.cls]]]
+        return [[["new", self.cls]], [["new", self.cls, "primed"]]]
 
     def _ref(self, hist):
         ref = RefObj(self.cls)
@@ -241,6 +259,8 @@ class Space(object):
         return events_for(self.cls, self._ref(hist), tier)
 
     def run(self, hist):
+        if len(hist[0]) > 2:
+            _prime(self.cls)
         obj = make(self.cls)
         ref = RefObj(self.cls)
         special = False
@@ -278,7 +298,16 @@ class Space(object):
             for k in obj.keys():
                 if dict.__getitem__(obj, k).axes["x"] is not obj.axes["x"]:
                     return bad("Dataset after {}: variable {} no longer shares axis x".format(hist[1:], k))
-        return ok(hist[-1][0], special, canon=canon_obj(obj, ref))
+        # read every public name back through attribute syntax: it must show what attrs holds NOW (no value remembered from an earlier read)
+        for name in NAMES[self.cls]["public"]:
+            got = call(getattr, obj, name)
+            if name in ref.A:
+                if isinstance(got, Raised) or common.freeze(got) != common.freeze(ref.A[name]):
+                    return bad("{} after {}: obj.{} reads {} but attrs[{!r}] is {!r}".format(self.cls, hist[1:], name, common.describe(got), name, ref.A[name]))
+            elif not (isinstance(got, Raised) and issubclass(got.cls, AttributeError)):
+                return bad("{} after {}: obj.{} reads {} although attrs has no such entry (AttributeError expected)".format(
+                    self.cls, hist[1:], name, common.describe(got)))
+        return ok(hist[-1][0], special, canon=canon_obj(obj, ref) + ("P" if len(hist[0]) > 2 else ""))
 
 
 SPACES = {"DimArray": Space("DimArray"), "Dataset": Space("Dataset"), "Axis": Space("Axis")}
